@@ -18,6 +18,42 @@ def view_key(st):
 ALL_TRUE = [['X-Requested-With', 'XMLHttpRequest'], ['X-H', '1']]
 
 
+V1, V2 = 'application/vnd.c08.v1+json', 'application/vnd.c08.v2+json'
+# kinds whose members sit in a TopologicalSorter and may carry an explicit constraint:
+#   kind -> (key naming a member, constraint placing the member AFTER the named one in the listing the harness reads back,
+#            constraint placing it BEFORE)
+CONSTRAINED = {'vpred': ('name', 'more', 'less'), 'deriver': ('name', 'over', 'under'), 'tween': ('name', 'over', 'under'),
+               'acceptorder': ('value', 'less', 'more')}
+
+
+def ranks_of(S):
+    """{statement id: position} for the members of containers in which SOME member carries an explicit constraint
+    (then the generator chains all of them, so the position is fixed by the constraints alone); None for a kind
+    whose constraints do not determine a total order (not generated: outside the model)"""
+    out = {}
+    for kind, (key, after, before) in CONSTRAINED.items():
+        members = [s for s in S if s['k'] == kind and 'shadow_of' not in s]
+        if not any(s.get(after) or s.get(before) for s in members):
+            continue
+        byname = {s[key]: s['id'] for s in members}
+        edges = set()
+        for s in members:
+            if s.get(after) in byname:
+                edges.add((byname[s[after]], s['id']))
+            if s.get(before) in byname:
+                edges.add((s['id'], byname[s[before]]))
+        todo = [s['id'] for s in members]
+        pos = 0
+        while todo:
+            free = [i for i in todo if not any(b == i and a in todo for a, b in edges)]
+            if len(free) != 1:
+                return None                 # a cycle, or members the constraints leave unordered
+            out[free[0]] = pos
+            pos += 1
+            todo.remove(free[0])
+    return out
+
+
 def wellformed(S):
     """every statement refers only to routes / predicates / deriver options that some statement declares"""
     routes = set(s['name'] for s in S if s['k'] == 'route')
@@ -34,7 +70,14 @@ def wellformed(S):
                 return False
         if s['k'] == 'route' and s.get('rp') is not None and 'rp' not in rpreds:
             return False
-    return True
+        if s['k'] in CONSTRAINED:
+            key, after, before = CONSTRAINED[s['k']]
+            names = set(x[key] for x in S if x['k'] == s['k'])
+            builtin = ('application/json',) if s['k'] == 'acceptorder' else ()
+            for c in (after, before):
+                if s.get(c) is not None and s[c] not in names and s[c] not in builtin:
+                    return False
+    return ranks_of(S) is not None
 
 
 def gen_program(rng, stream):
@@ -84,16 +127,39 @@ def gen_program(rng, stream):
         rnames.append('json')
     for n in rnames:
         add(k='renderer', name=n)
-    has_vp = chance(0.5) or stream == 'pred2'
+    has_vp = chance(0.5) or stream in ('pred2', 'constrained')
+    cons = stream == 'constrained'
+
+    def constrain(a, b, after, before):
+        """chain two members: one of them names the other (either direction, on either statement)"""
+        holder, other = (a, b) if chance(0.5) else (b, a)
+        holder[after if chance(0.5) else before] = other.get('name', other.get('value'))
     if has_vp:
-        add(k='vpred', name='vp')
-    if stream == 'pred2':
-        add(k='vpred', name='vq')
-    has_dv = chance(0.4) or stream == 'deriv2'
+        pv = dict(k='vpred', name='vp')
+        S.append(pv)
+    if stream == 'pred2' or (cons and chance(0.7)):
+        pq = dict(k='vpred', name='vq')
+        S.append(pq)
+        if cons:
+            constrain(pv, pq, 'more', 'less')
+    has_dv = chance(0.4) or stream == 'deriv2' or cons
     if has_dv:
-        add(k='deriver', name='dv')
-    if stream == 'deriv2':
-        add(k='deriver', name='dw')
+        dv = dict(k='deriver', name='dv')
+        S.append(dv)
+    if stream == 'deriv2' or (cons and chance(0.6)):
+        dw = dict(k='deriver', name='dw')
+        S.append(dw)
+        if cons:
+            constrain(dv, dw, 'over', 'under')
+    if cons and chance(0.7):
+        # vendor media types chained among themselves and to a built-in type
+        o1 = dict(k='acceptorder', value=V1, more='application/json')
+        o2 = dict(k='acceptorder', value=V2)
+        if chance(0.5):
+            o2['more'] = V1
+        else:
+            o1['less'] = V2
+        S += [o1, o2]
     has_mapper = chance(0.3)
     if has_mapper:
         add(k='mapper')
@@ -103,8 +169,10 @@ def gen_program(rng, stream):
         add(k='reqm', name=n, mode=rng.choice(['method', 'property', 'reify']))
     for _ in range(rng.choice([0, 0, 1, 2, 3])):
         add(k='sub', ev=rng.choice(['req', 'req', 'resp']))
-    for n in rng.sample(['a', 'b', 'c'], rng.choice([0, 0, 1, 2])):
-        add(k='tween', name=n)
+    tw = [dict(k='tween', name=n) for n in rng.sample(['a', 'b', 'c'], 2 if cons and chance(0.5) else rng.choice([0, 0, 1, 2]))]
+    if cons and len(tw) == 2:
+        constrain(tw[0], tw[1], 'over', 'under')
+    S += tw
     for kind, p in (('notfound', 0.3), ('forbidden', 0.35), ('exc', 0.3)):
         if chance(p):
             add(k='view', kind=kind)
@@ -132,7 +200,8 @@ def gen_program(rng, stream):
             st['param'] = rng.choice(['a', 'b'])
         if (has_vp and chance(0.35)) or chance(0.01):
             st['vp'] = rng.choice(['1', '2'])
-        if stream == 'pred2' and chance(0.5) and 'vp' not in st:
+        if (stream == 'pred2' or (cons and any(x['k'] == 'vpred' and x['name'] == 'vq' for x in S))) and chance(0.5) \
+                and 'vp' not in st:
             st['vq'] = rng.choice(['1', '2'])
         if chance(0.12):
             st['xhr'] = True
@@ -143,7 +212,7 @@ def gen_program(rng, stream):
         slot = (st.get('ctx'), st['name'], st.get('route'), st.get('accept'))
         if view_key(st) in seen:
             continue
-        customs = ['vp'] if has_vp else []
+        customs = (['vp'] if has_vp else []) + (['vq'] if any(x['k'] == 'vpred' and x['name'] == 'vq' for x in S) else [])
         if stream != 'tie' and stream != 'pred2' and view_order(st, customs, True) in kinds_in_slot.get(slot, set()):
             continue                                # equal multiview order in one slot = tie (known finding)
         seen.add(view_key(st))
@@ -165,7 +234,8 @@ def gen_program(rng, stream):
             st['csrf'] = rng.choice([True, False])
         if (has_dv and chance(0.5)) or stream == 'deriv2':
             st['dopt'] = 't'
-        if stream == 'deriv2':
+        if stream == 'deriv2' or (cons and any(x['k'] == 'deriver' and x['name'] == 'dw' for x in S) and chance(0.6)):
+            st['dopt'] = 't'
             st['dopt2'] = 'u'
         views.append(st)
     if stream == 'tie' and views:
@@ -195,7 +265,11 @@ def gen_program(rng, stream):
                 continue                            # (different kinds can still tie after the integer division)
             used.add(view_order(v, customs, True))
             views.append(v)
-    if stream == 'pred2':
+    if cons and any(x['k'] == 'acceptorder' for x in S):
+        views = [v for v in views if not (v['name'] == 'api')]
+        views += [dict(k='view', name='api', accept=V2), dict(k='view', name='api', accept=V1),
+                  dict(k='view', name='api', accept='application/json')]
+    if stream == 'pred2' or (cons and any(x['k'] == 'vpred' and x['name'] == 'vq' for x in S)):
         views = [v for v in views if not (v['name'] == 'y' and v.get('route') is None and v.get('ctx') is None)]
         views += [dict(k='view', name='y', vp='1'), dict(k='view', name='y', vq='1')]
     S += views
@@ -205,11 +279,18 @@ def gen_program(rng, stream):
     return S
 
 
+def seq_class(S):
+    """{statement id: ordered container whose member order the variants must keep, or None}; members placed by
+    explicit constraints are free to move"""
+    ranked = ranks_of(S) or {}
+    return {s['id']: (None if s['id'] in ranked else SEQ_KINDS.get(s['k'])) for s in S}
+
+
 def respecting_shuffle(rng, S):
     ids = [s['id'] for s in S]
     perm = ids[:]
     rng.shuffle(perm)
-    cls = {s['id']: SEQ_KINDS.get(s['k']) for s in S}
+    cls = seq_class(S)
     for c in ('route', 'sub', 'tween'):
         members = [i for i in ids if cls[i] == c]            # original relative order
         slots = [p for p, i in enumerate(perm) if cls[i] == c]
@@ -245,6 +326,8 @@ def probes_for(rng, S):
             paths += ['/%s/hello.txt' % st['name'], '/%s/missing.txt' % st['name']]
         if st['k'] == 'view' and st.get('name') == 'boom':
             paths.append('/boom')
+        if st['k'] == 'view' and st.get('name') == 'api':
+            paths.append('/api')
     paths = sorted(set(paths))
     queries = ['', 'a=1', 'b=1', 'a=1&b=1&vp=*&vq=*&rp=1', 'vp=1&vq=1', 'vp=2&rp=1']
     out = []
@@ -252,6 +335,9 @@ def probes_for(rng, S):
         out.append(['GET', p, '', None, None])
         out.append(['GET', p, 'a=1&b=1&vp=*&vq=*&rp=1', 'p1', None])
         out.append(['GET', p, 'a=1&b=1&vp=*&vq=*&rp=1', 'p1', None, ALL_TRUE])
+        if p == '/api':
+            for acc in ('%s, %s' % (V1, V2), '*/*', 'application/json, %s' % V1, '%s;q=0.9, %s;q=0.1' % ('application/json', V2)):
+                out.append(['GET', p, '', 'p1', None, [['Accept', acc]]])
         if any(st.get('accept') for st in S):
             out.append(['GET', p, 'a=1&vp=*', 'p1', None, ALL_TRUE + [['Accept', 'application/json']]])
             out.append(['GET', p, '', 'p1', None, [['Accept', 'text/html;q=0.5, application/json']]])
@@ -266,6 +352,7 @@ def probes_for(rng, S):
     return seen
 
 
+SEQ_KINDS_DUMMY = None
 SHADOWABLE = ('renderer', 'defperm', 'policy', 'rootf', 'sessf', 'reqf', 'reqm', 'view', 'route', 'vpred', 'deriver', 'tween')
 
 
@@ -306,8 +393,8 @@ def insert_shadows(rng, body, shadows):
 
 def gen_case(rng, tier):
     r = rng.random()
-    stream = ('main' if r < 0.60 else 'override' if r < 0.76 else 'eqsize' if r < 0.88 else 'tie' if r < 0.93
-              else 'pred2' if r < 0.97 else 'deriv2')
+    stream = ('main' if r < 0.52 else 'constrained' if r < 0.64 else 'override' if r < 0.78 else 'eqsize' if r < 0.88
+              else 'tie' if r < 0.93 else 'pred2' if r < 0.97 else 'deriv2')
     S = gen_program(rng, 'main' if stream == 'override' else stream)
     k = 5 if tier == 'quick' else 8
     variants = [[s['id'] for s in S]]
